@@ -208,7 +208,7 @@ def run_chains(res, p, tier):
     runner = _Chains(res, _dom(tier)["full_kinds"])
     acc = p["acc"]
     for pre, post, maxm in plan:
-        for kind in cm.FLOW_KINDS:
+        for kind in (cm.FLOW_KINDS_SHORT if len(pre) + len(post) <= 1 else cm.FLOW_KINDS):
             for m in range(maxm + 1):
                 case = runner.case(pre, acc, post, kind, m)
         res.sample(case, 4)
